@@ -1,6 +1,7 @@
 /* all arguments nondeterministic: the contract's requires clauses (is_fresh, lengths,
  * data invariants) define the domain; pointers are allocated by __CPROVER_is_fresh */
 void harness(void) {
+  VERIF_PROLOGUE();
   blake3_version();
   VERIF_REACHABLE();
 }
